@@ -285,11 +285,14 @@ def gen_opts(rng):
     return o, argv
 
 
-def boundary_case(rng):
+BOUNDARY_NS = [35, 41, 47, 50, 57, 60, 69, 70, 75, 80, 82, 83, 90, 94, 95]
+
+
+def boundary_case(rng, n=None):
     """two nested objects whose shared-key ratio is exactly N/100, with `--merge percent_N`: the documented mapping is
     ModelFieldsPercentMatch(float(N) / 100)"""
     from math import gcd
-    n = rng.choice([35, 41, 47, 50, 57, 60, 69, 70, 75, 80, 82, 83, 90, 94, 95])
+    n = n or rng.choice(BOUNDARY_NS)
     g = gcd(n, 100)
     union, inter = 100 // g, n // g
     if union > 25:
@@ -332,9 +335,17 @@ def falsify(ctx):
     n = ctx.n(90, 1800)
     with tempfile.TemporaryDirectory(prefix="j2m-c16-") as root:
         jobs, metas = [], []
-        for i in range(ctx.n(24, 150)):
+        for i in range(len(BOUNDARY_NS) + ctx.n(12, 120)):
             d = os.path.join(root, "b%d" % i)
             os.makedirs(d)
+            if i < len(BOUNDARY_NS):
+                # every threshold whose N/100 an inexact conversion would miss, each run
+                samples, opts, oargv = boundary_case(rng, BOUNDARY_NS[i])
+                clitools.write_files(d, {"b.json": samples})
+                full = ["-m", "Root", "b.json"] + oargv
+                jobs.append((full, d, ctx.repo))
+                metas.append((samples, {"b.json": samples}, full, opts, False, "boundary", d))
+                continue
             if i % 3 == 2:
                 samples, files_e, argv_e = empty_object_case(rng)
                 clitools.write_files(d, files_e)
